@@ -19,6 +19,7 @@ def judge (fam payload impl : String) : Verdict :=
   | "http2.raw" => Http.Driver.judgeH2Raw payload impl
   | "http.conv" => Http.Driver.judgeConv payload impl
   | "http.split" => Http.Driver.judgeSplit payload impl
+  | "http.rawsplit" => Http.Driver.judgeRawSplit payload impl
   | "http.entry" => Http.Driver.judgeEntry payload impl
   | "kafka.conv" => Kafka.Driver.judgeConv payload impl
   | "kafka.raw" => Kafka.Driver.judgeRaw payload impl
@@ -38,6 +39,7 @@ def judge (fam payload impl : String) : Verdict :=
   | "kfl.reuse" => Kfl.Driver.judgeEval .reuse payload impl
   | "kfl.macro" => Kfl.Macro.judge payload impl
   | "sched.emit" => Sched.judgeEmit payload impl
+  | "sched.excl" => Sched.judgeExcl payload impl
   | "sched.dump" => Sched.judgeDump payload impl
   | _ =>
     if fam.startsWith "cost." then Cost.judge payload impl
